@@ -7,8 +7,15 @@ import common
 from common import log
 
 
-def run_taiko(res, tier, binp):
+def run_taiko(res, tier, binp, parts=("mc", "trace")):
     pid = os.getpid()
+    if "mc" in parts:
+        _model_part(res, tier, binp, pid)
+    if "trace" in parts:
+        _trace_part(res, tier, binp, pid)
+
+
+def _model_part(res, tier, binp, pid):
     maxobjs = 3 if tier == "quick" else 4
     cfgp = os.path.join(common.OUT, "MC_TaikoSplice_%s_%d.cfg" % (tier, pid))
     with open(cfgp, "w") as f:
@@ -39,7 +46,11 @@ def run_taiko(res, tier, binp):
         os.remove(r["log"])
     except OSError:
         pass
+
+
+def _trace_part(res, tier, binp, pid):
     # ---- implementation -> specification
+    maxobjs = 3 if tier == "quick" else 4
     trace = os.path.join(common.OUT, "taiko_trace_%s_%d.ndjson" % (tier, pid))
     p = common.run_harness(binp, ["taiko-record", trace, "--tier", tier], timeout=3600)
     log(p.stdout.strip().splitlines()[-1])
